@@ -10,6 +10,8 @@ import (
 
 	"github.com/taskctl/taskctl/pkg/scheduler"
 	"github.com/taskctl/taskctl/pkg/task"
+
+	"verif/harness/hook"
 )
 
 // Chooser makes every choice of a schedule: which in-flight run completes next, whether several
@@ -213,12 +215,12 @@ type Obs struct {
 
 // Params of one execution.
 type Params struct {
-	Pause     time.Duration // scheduler polling pause (hook); 0 = leave the default 50ms
-	Settle    time.Duration // how long the in-flight set must stay equal to the expected set
-	Bound     time.Duration // liveness bound for reaching the expected set / for Schedule to return
-	Late      bool          // model reading, see model.late
-	CancelOK  bool          // the chooser may inject a caller-side Cancel
-	Subsets   bool          // the chooser may release several runs at once
+	Pause      time.Duration // scheduler polling pause (hook); 0 = leave the default 50ms
+	Settle     time.Duration // how long the in-flight set must stay equal to the expected set
+	Bound      time.Duration // liveness bound for reaching the expected set / for Schedule to return
+	Late       bool          // model reading, see model.late
+	CancelOK   bool          // the chooser may inject a caller-side Cancel
+	Subsets    bool          // the chooser may release several runs at once
 	ForceLoose bool
 }
 
@@ -261,7 +263,7 @@ func execute(g *Gr, ch Chooser, p Params) (obs Obs, vs []Violation) {
 	c := newCtrl()
 	s := scheduler.NewScheduler(c)
 	if p.Pause > 0 {
-		setPause(s, p.Pause)
+		hook.SetPause(s, p.Pause)
 	}
 	done := make(chan error, 1)
 	go func() { done <- s.Schedule(eg) }()
